@@ -36,6 +36,8 @@ type c11Thread struct {
 	// schedule with all its VMs) of the process: anything keyed by program text has then never been seen by the baseline
 	// run, while the VMs of one concurrent run do collide on it
 	Fresh bool `json:",omitempty"`
+	// ValOnly: compare error and value only (the process text lists a map-ordered value)
+	ValOnly bool `json:",omitempty"`
 }
 
 var c11Uniq int64
@@ -67,11 +69,21 @@ var c11Pool = []c11Thread{
 	{Src: "(1+2", Lang: 1}, {Src: "(1+2", Lang: 2}, {Src: "", Lang: 1}, {Src: "", Lang: 2}, {Src: "1 +* ", Lang: 0}, {Src: "'abc", Lang: 2}, {Src: "if ", Lang: 1},
 	{Src: "2d", Def: "d4+2"}, {Src: "d + d", Def: "6", Seed: 5}, {Src: "&c = 2d6; c + c", Seed: 6}, {Src: "&c = 2d6; c + c"}, {Src: "func g(){ d6 }; g() + g()", Seed: 7}, {Src: "func g(n){ n <= 0 ? 0 : 1 + g(n-1) }; g(3)"},
 	{Src: "`{d6}-{d6}`", Seed: 8}, {Src: "`{% x = 2; x %}{x}`"}, {Src: "i = 0; while i < 3 { i = i + 1 }; i"}, {Src: "1/0"}, {Src: "[1,2,3][5]"}, {Src: "^stA:5 B+1"}, {Src: "x = 5; load('x') + 1"}, {Src: "2d6k1 + 3d6q1", Seed: 9}, {Src: "d6优势"}, {Src: "'a' + 'b' == 'ab'"},
+	// values handed out by built-ins, modified in place by the VM that received them
+	// (dir lists names in map order: these programs are compared by value only, and their values do not depend on the order; the readers come first
+	// so that the sequential replay sees them once before and once after the writers)
+	{Src: "x = dir([]); i = 0; n = 0; while i < x.len() { if x[i] == 'hacked' { n = n + 1 }; i = i + 1 }; [n, x.len()]", ValOnly: true}, {Src: "x = dir({}); i = 0; n = 0; while i < x.len() { if x[i] == 'hacked' { n = n + 1 }; i = i + 1 }; [n, x.len()]", ValOnly: true},
+	{Src: "x = dir([]); x[0] = 'hacked'; x[1] = 'hacked'; x.len()", ValOnly: true}, {Src: "x = dir({}); x.pop(); x.push('hacked'); x[0] = 'hacked'; x.len()", ValOnly: true}, {Src: "x = dir(&c); x[0] = 'hacked'; 1", ValOnly: true},
+	{Src: "x = [1,2].kh; y = [3].kh; [x(), y()]"},
 }
 
 func c11Enumerate(tier string, seed int64, emit func(string, any)) {
 	thorough := tier == "thorough"
 	n := len(c11Pool)
+	// sequential isolation, as the FIRST thing a fresh worker process does: every deterministic program of the pool on a fresh
+	// VM each, the whole pool three times over (in order, in order again, in reverse): a program gives the same answer every
+	// time, whatever ran in the process before
+	emit("sched/sequential replay of the pool", c11Case{Kind: "golden"})
 	for i := 0; i < n; i++ {
 		for j := 0; j < n; j++ {
 			emit("sched/2 VMs", c11Case{Kind: "sched", Threads: []c11Thread{c11Pool[i], c11Pool[j]}, Bound: 1})
@@ -167,6 +179,9 @@ func c11Body(t c11Thread, uniq int64) c11Obs {
 	}
 	o.ret = drv.Canon(vm.Ret)
 	o.detail = norm(vm.GetDetailText())
+	if t.ValOnly {
+		o.detail = ""
+	}
 	o.rest = norm(vm.RestInput)
 	return o
 }
@@ -216,6 +231,35 @@ func c11Run(raw json.RawMessage) harn.Result {
 		if msg := diceInRange(t.Src, got.ret); msg != "" {
 			viol("C11:die-out-of-range", fmt.Sprintf("%s: VM %d (%q): %s", where, i, t.Src, msg))
 		}
+	}
+	if c.Kind == "golden" {
+		first := map[int]c11Obs{}
+		order := []int{}
+		for pass := 0; pass < 3; pass++ {
+			for k := range c11Pool {
+				i := k
+				if pass == 2 {
+					i = len(c11Pool) - 1 - k
+				}
+				order = append(order, i)
+			}
+		}
+		for n, i := range order {
+			t := c11Pool[i]
+			if t.Seed == 0 && usesDice(t.Src) {
+				continue
+			}
+			o := c11Body(t, atomic.AddInt64(&c11Uniq, 1))
+			o.held = nil
+			if prev, ok := first[i]; !ok {
+				first[i] = o
+			} else if prev != o {
+				viol("C11:differs-from-isolated", fmt.Sprintf("sequential replay: %q on a fresh VM gave err=%q value=%s detail=%q the first time and err=%q value=%s detail=%q at position %d of the replay (process-wide state leaks from one VM to the next)", t.Src, prev.err, prev.ret, prev.detail, o.err, o.ret, o.detail, n))
+				break
+			}
+		}
+		res.Sample = "pool replayed three times on fresh VMs"
+		return res
 	}
 	switch c.Kind {
 	case "sched", "shim":
